@@ -16,8 +16,9 @@ class U3GateToRotation(DecompositionRule[GateOperation]):
     """
 
     def predicate(self, operation: GateOperation) -> bool:
-        # Only decompose U3 and its controlled version
-        return (
+        # Only decompose U3 and its controlled version; operations that are not
+        # gate operations (e.g. MultiPhaseOperation) are left as they are.
+        return isinstance(operation, GateOperation) and (
             operation.gate.name == "U3"
             or isinstance(operation.gate, ControlledGate)
             and operation.gate.wrapped_gate.name == "U3"
